@@ -88,6 +88,8 @@ def run_case(case):
     if kind == "multislater":
         opts["ms_ref"] = ["random", "aufbau", "random", "closed"][case["rep"] % 4] if na == nb else ["random", "aufbau"][case["rep"] % 2]
         opts["ms_ndets"] = 10
+    if kind in ("rhf", "uhf") and case["rep"] % 2 == 1:
+        opts["complex_orbs"] = True   # these two kinds conjugate the trial orbitals consistently: complex orbitals are admissible
     t = trials.make(kind, norb, (na, nb), rng, **opts)
     trial, wd_ = t["trial"], t["wave_data"]
     events = []
